@@ -172,6 +172,20 @@ def run(prop, tier, seed):
         coverage["samples"].append({"suite": "open-attempts", "driver": cov2["samples"][0]})
         coverage["rule"] += "; " + cov2["rule"]
         coverage["open_attempts"] = cov2["evaluations"]
+    if prop == "C09":
+        # beyond the list: the advisory file locks of sessions sharing one file, against spec/Locks.tla. Informational:
+        # never a violation of C09, never a reason to fail the check.
+        try:
+            import check_locks
+            lk = check_locks.run_all(tier, quiet=True)
+            lk["model"].pop("assignments", None)
+            coverage["beyond_list_locks"] = lk
+            for r in lk["real"]:
+                if r["beyond_list_violations"] or r["drift"]:
+                    print("NOTE beyond-list locks (%s build): %s" % (r["profile"], ", ".join(
+                        "%s x%d" % (k, v["count"]) for k, v in list(r["beyond_list_violations"].items()) + list(r["drift"].items()))))
+        except Exception as e:
+            coverage["beyond_list_locks"] = {"not_run": str(e)[:300]}
     assumptions = [
         "ArenaSeq is a hand-written transcription of unsync.rs/sync.rs; its fidelity is checked on every replayed event by TraceSeqImpl (DRIFT if it fails)",
         "small-scope exhaustive exploration (cap 96..127, <= %d calls after scripted prefixes) plus sampled larger histories" % (6 if tier == "thorough" else 5),
